@@ -530,9 +530,12 @@ def autoforwards_ast(func, func_ast, sig, args=(), kwargs={}):
 def autoforwards_method(method, args, kwargs):
     if method.__self__ is None:
         raise UnknownForwards
-    return _signatures.mask(
-        autoforwards(method.__func__, (method.__self__,) + tuple(args), kwargs),
-        1)
+    sig = autoforwards(method.__func__, (method.__self__,) + tuple(args), kwargs)
+    try:
+        return _signatures.mask(sig, 1)
+    except ValueError:
+        # the discovered signature has no room for the instance
+        raise UnknownForwards()
 
 
 def autoforwards(obj, args=(), kwargs={}):
